@@ -403,19 +403,6 @@ theorem step_inv (A : Arith) (st : St) (op : Op) (rp : Reply) (hinv : PoolInv st
   | flush t tc keep cmpl => exact opFlush_inv A st t tc keep cmpl rp hinv h
   | flushAll keep cmpl => exact (opFlushAll_inv A st keep cmpl rp hinv h).1
 
-/-- run a whole history on the pool -/
-def run (A : Arith) : St → List Op → Res (St × List Ev)
-  | st, [] => .ok (st, [])
-  | st, op :: rest =>
-    match step A st op with
-    | .ok rp =>
-      match run A rp.st rest with
-      | .ok (st', evs) => .ok (st', rp.evs ++ evs)
-      | .err k => .err k
-      | .panic k => .panic k
-    | .err k => .err k
-    | .panic k => .panic k
-
 theorem run_inv (A : Arith) : ∀ (ops : List Op) (st st' : St) (evs : List Ev), PoolInv st →
     run A st ops = .ok (st', evs) → PoolInv st'
   | [], st, st', evs, hinv, h => by
